@@ -259,6 +259,7 @@ type PPHeader struct {
 	Version int // 1 or 2
 	Local   bool
 	Unknown bool // v1 UNKNOWN / v2 UNSPEC
+	UDP     bool // v2 only: the addresses are a datagram pair (protocol nibble 2)
 	Src     *net.TCPAddr
 	Dst     *net.TCPAddr
 	TLVs    []byte
@@ -288,10 +289,16 @@ func (h *PPHeader) Encode() []byte {
 	if !h.Unknown && !h.Local {
 		if ip4 := h.Src.IP.To4(); ip4 != nil {
 			fam = 0x11
+			if h.UDP {
+				fam = 0x12
+			}
 			body = append(body, ip4...)
 			body = append(body, h.Dst.IP.To4()...)
 		} else {
 			fam = 0x21
+			if h.UDP {
+				fam = 0x22
+			}
 			body = append(body, h.Src.IP.To16()...)
 			body = append(body, h.Dst.IP.To16()...)
 		}
